@@ -255,7 +255,8 @@ impl ServerMetaContextOutput {
             buf.push_str(before_marker);
             if let Some(title) = title {
                 buf.push_str("<title>");
-                buf.push_str(&title);
+                // the title is text, not markup: `</title>` inside it must not end the element
+                buf.push_str(&html_escape::encode_text(&title));
                 buf.push_str("</title>");
             }
             buf.push_str(before_head_close);
